@@ -383,6 +383,9 @@ impl Server {
     pub fn start(address: &str, initial: usize, max: usize) -> Server {
         let log: SharedLog = Default::default();
         let service = svc::standard_service(log.clone());
+        Server::start_with(address, initial, max, service, log)
+    }
+    pub fn start_with(address: &str, initial: usize, max: usize, service: VarlinkService, log: SharedLog) -> Server {
         let stop = Arc::new(AtomicBool::new(false));
         let cfg = ListenConfig {
             initial_worker_threads: initial,
